@@ -153,8 +153,9 @@ peg::parser! {
             } /
             // Escape opening bracket.
             ['['] { (String::from(r"\["), '[') } /
-            // `&&` and `~~` are set operators to the regex engine; in a pattern they are members.
-            [c if c == '&' || c == '~'] { (std::format!("\\{c}"), c) } /
+            // `&&` and `~~` are set operators to the regex engine, and a `^` that ends up first
+            // would negate the set; in a pattern they are members.
+            [c if c == '&' || c == '~' || c == '^'] { (std::format!("\\{c}"), c) } /
             // Any other character except closing bracket gets added as-is.
             [c if c != ']'] { (c.to_string(), c) }
 
